@@ -92,6 +92,8 @@ func coreValues() []MV {
 		relOf([]string{"a", "b"}, []float64{1, 2}), relOf([]string{"a", "b"}, []float64{1, 2}, []float64{1, 3}),
 		relOf([]string{"a", "b"}, []float64{1, 3}, []float64{2, 3}),
 		relOf([]string{"b"}, []float64{1}), relOf([]string{"@", "x"}, []float64{0, 1}), relOf([]string{"@"}, []float64{0}),
+		relOf([]string{"a", "b", "c"}, []float64{1, 2, 3}, []float64{4, 5, 6}), relOf([]string{"a", "b", "c"}, []float64{1, 2, 3}),
+		relOf([]string{"a", "b", "c"}, []float64{1, 2, 3}, []float64{4, 5, 6}, []float64{7, 8, 3}),
 		relOf([]string{"@", "x"}, []float64{0, 1}, []float64{1, 1}),
 		mset(mtup("a", num(1)), mtup("b", num(1))), // mixed headings
 		mset(mtup("a", num(1)), mtup("a", num(1), "b", num(2))),
@@ -428,6 +430,41 @@ func pathsFor(m MV) []Path {
 		ps = append(ps, Path{"rel-literal", s})
 		if r, ok := relLiteral(m, true); ok && r != s {
 			ps = append(ps, Path{"rel-literal-rev", r})
+		}
+	}
+	if _, ok := relLiteral(m, false); ok && len(m.S) > 0 && len(m.S[0].T) >= 3 {
+		// join-built: joining the projection onto all-but-the-first attribute with the projection onto
+		// the first two gives (when that decomposition is lossless) the same relation with an UNSORTED
+		// internal column order (h2.., then h1) - only joins produce that layout
+		hs := strings.Split(core.Heading(m.S[0]), ",")
+		proj := func(names []string) MV {
+			var rows []MV
+			for _, e := range m.S {
+				t := map[string]MV{}
+				for _, n := range names {
+					t[n] = e.T[n]
+				}
+				rows = append(rows, core.Tup(t))
+			}
+			return mset(rows...)
+		}
+		l, r := proj(hs[1:]), proj(hs[:2])
+		var joined []MV
+		for _, x := range l.S {
+			for _, y := range r.S {
+				if x.T[hs[1]].Enc == y.T[hs[1]].Enc {
+					t := map[string]MV{hs[0]: y.T[hs[0]]}
+					for k, v := range x.T {
+						t[k] = v
+					}
+					joined = append(joined, core.Tup(t))
+				}
+			}
+		}
+		if mset(joined...).Enc == m.Enc {
+			ll, _ := relLiteral(l, false)
+			rl, _ := relLiteral(r, false)
+			ps = append(ps, Path{"join-reorder", "(" + ll + " <&> " + rl + ")"})
 		}
 	}
 	n := len(m.S)
